@@ -47,6 +47,7 @@ def check(run):
         run.guard("C01.1.token-source", cfg + "/sources", lambda: rule_token_sources(run, F, cfg))
         run.guard("C01.6.rule-matcher", cfg, lambda: rule_matches_conjunction(run, F, cfg))
         run.guard("C01.7.rule-identity", cfg, lambda: rule_identity(run, F, cfg))
+        run.guard("C01.9.entry-points", cfg, lambda: rule_entry_points(run, F, cfg))
         run.guard("C01.4.token-boundary", cfg + "/tokenizer", lambda: rule_tokenizer_table(run, F, cfg))
         b = run.borrow("C05", why="a fused rule must still be found for every request one of its members matches")
         run.guard("C01.via.C05.1.fusion-key", cfg, lambda: _C05.rule_key(b, F, cfg))
@@ -310,6 +311,44 @@ def rule_boundary(run, F, cfg):
            f"holds for every URL with fewer than 127 tokens only if none of those tokens is cut off, because a rule is "
            f"filed under ONE of its tokens and found only if that token is among the request's",
            site=F.consts["utils::TOKENS_MAX"]["span"], config=cfg)
+
+
+ENTRY_POINTS = ["lists::FilterSet::add_filters", "lists::FilterSet::add_filter", "lists::FilterSet::add_filter_list",
+                "engine::Engine::from_filter_set", "engine::Engine::from_rules", "engine::Engine::from_rules_debug",
+                "engine::Engine::from_rules_parametrised", "lists::parse_filters",
+                "cosmetic_filter_cache::CosmeticFilterCache::from_rules"]
+DROPPING = re.compile(
+    r"^std::vec::Vec::(retain|retain_mut|dedup|dedup_by|dedup_by_key|truncate|drain|pop|remove|swap_remove|clear|split_off)$|"
+    r"^std::iter::Iterator::(filter|filter_map|take|take_while|skip|skip_while|step_by|map_while)$|Itertools::(dedup|unique|unique_by)$")
+
+
+def rule_entry_points(run, F, cfg):
+    """Between the parsers and the stores (Blocker::new, CosmeticFilterCache::from_rules) the public entry points hand
+    every parsed rule on: FilterSet::add_filters / add_filter / add_filter_list, Engine::from_filter_set and the
+    from_rules* wrappers contain no operation that can drop an element of a rule vector (retain, dedup, filter, truncate,
+    ...). De-duplicating there needs a notion of "the same rule", and every identity coarser than the rule line loses
+    rules (get_id() ignores `$tag`; an identity without the entity lists makes `site.*##.x` swallow the generic `##.x`)."""
+    n = 0
+    for root in ENTRY_POINTS:
+        fs = [f for nme, f in F.fns.items() if nme == root or nme.startswith(root + "::")]
+        if not fs:
+            run.ob("C01.9.entry-points", f"forwards-all-rules:{root.split('::', 1)[-1]}", False, f"`{root}` not found",
+                   status="UNDISCHARGED", config=cfg)
+            continue
+        run.touched(*fs)
+        n += len(fs)
+        hits = [(strip_generics(t["callee"]).split("::")[-1], g.loc(b)) for g in fs for b, t in g.calls()
+                if DROPPING.search(strip_generics(t["callee"]))]
+        run.ob("C01.9.entry-points", f"forwards-all-rules:{root.split('::', 1)[-1]}", not hits,
+               f"{root} passes on every rule it is given: no element-dropping operation on the way ({hits[:3]})",
+               site=hits[0][1] if hits else fs[0].loc(0), config=cfg)
+    run.floor("C01.9.entry-points", f"entry-point bodies searched [{cfg}]", n, 9)
+    # the structural identity (which ignores the tag and the spelling) is for $badfilter matching only
+    users = sorted(set(g.name.split("::{closure")[0] for fn_ in ("get_id", "get_id_without_badfilter")
+                       for g, b, t in F.callers_of(r"^filters::network::NetworkFilter::" + fn_ + "$")))
+    run.ob("C01.9.entry-points", "structural-id-used-for-badfilter-only", set(users) <= {"blocker::Blocker::new"} and bool(users),
+           f"NetworkFilter::get_id / get_id_without_badfilter are called by Blocker::new only (callers: {users}); as a notion of "
+           f"rule identity anywhere else it merges rules that differ in their tag", config=cfg)
 
 
 def rule_token_cap_unbounded(run, F, cfg):
